@@ -75,7 +75,11 @@ func objKey(o Obj) string {
 	case "pod":
 		return "pod/" + o.Pod.NS + "/" + o.Pod.Name
 	case "np":
-		return "np/" + o.Np.NS + "/" + o.Np.Name
+		ns := o.Np.NS
+		if ns == "" { // no metadata.namespace: the policy lives in `default`
+			ns = "default"
+		}
+		return "np/" + ns + "/" + o.Np.Name
 	case "anp":
 		return "anp/" + o.Anp.Name
 	case "banp":
@@ -119,6 +123,21 @@ func (t *histTracker) del(o Obj) {
 			}
 		}
 	}
+}
+
+// podsOfWorkload: the pods a workload object stands for (one, or two when it asks for several replicas); a workload
+// object is accounted for as these pods, which is all the engine keeps of it
+func podsOfWorkload(w *Workload) []Obj {
+	n := 1
+	if w.Replicas != nil && *w.Replicas > 1 && w.Kind != "DaemonSet" && w.Kind != "CronJob" {
+		n = 2
+	}
+	var l []Obj
+	for i := 1; i <= n; i++ {
+		l = append(l, Obj{Kind: "pod", Pod: &PodObj{NS: w.NS, Name: fmt.Sprintf("%s-%d", w.Name, i), Labels: w.Labels, Ports: w.Ports,
+			OwnerKind: w.Kind, OwnerName: w.Name, HostIP: "192.168.49.2"}})
+	}
+	return l
 }
 
 // freshEngine builds a new engine holding the tracked objects; admin policies by ascending priority.
@@ -211,7 +230,7 @@ func execHistCase(c *Sx, env *execEnv) (*Sx, []Violation) {
 		}
 		var res *Sx
 		panicked := ""
-		if n := map[string]int{"ins": 2, "del": 2, "q": 5, "clear": 1}[op.Head()]; n == 0 || len(op.L) < n {
+		if n := map[string]int{"ins": 2, "del": 2, "q": 5, "clear": 1, "setres": 4}[op.Head()]; n == 0 || len(op.L) < n {
 			out.Add(At("bad-op"))
 			continue
 		}
@@ -238,11 +257,83 @@ func execHistCase(c *Sx, env *execEnv) (*Sx, []Violation) {
 					res = errSx(err)
 				} else {
 					res = At("ok")
-					tr.put(o)
-					ptrs[objKey(o)] = r
+					if o.Kind == "wl" {
+						for _, p := range podsOfWorkload(o.Wl) {
+							tr.put(p)
+							delete(ptrs, objKey(p))
+						}
+					} else {
+						tr.put(o)
+						ptrs[objKey(o)] = r
+					}
 					lastUpdate = step
 				}
 				env.count("op:ins-" + o.Kind)
+			case "setres":
+				var objs [3][]Obj
+				var nps []*netv1.NetworkPolicy
+				var pods []*corev1.Pod
+				var nss []*corev1.Namespace
+				var rts [3][]runtime.Object
+				for gi, g := range op.L[1:4] {
+					for _, x := range g.Args() {
+						o, err := parseObj(x)
+						if err != nil {
+							res = At("bad-op")
+							return
+						}
+						r, err := toRuntime(o)
+						if err != nil {
+							res = At("bad-op")
+							return
+						}
+						objs[gi] = append(objs[gi], o)
+						rts[gi] = append(rts[gi], r)
+						switch t := r.(type) {
+						case *netv1.NetworkPolicy:
+							nps = append(nps, t)
+						case *corev1.Pod:
+							pods = append(pods, t)
+						case *corev1.Namespace:
+							nss = append(nss, t)
+						}
+					}
+				}
+				if len(nps) != len(objs[0]) || len(pods) != len(objs[1]) || len(nss) != len(objs[2]) {
+					res = At("bad-op")
+					return
+				}
+				err := pe.SetResources(nps, pods, nss)
+				// accounting: namespaces, policies, pods, in that order; a policy whose name is taken is rejected and ends the call
+				rejected := false
+				for i, o := range objs[2] {
+					tr.put(o)
+					ptrs[objKey(o)] = rts[2][i]
+				}
+				for i, o := range objs[0] {
+					if _, dup := tr.objs[objKey(o)]; dup {
+						rejected = true
+						break
+					}
+					tr.put(o)
+					ptrs[objKey(o)] = rts[0][i]
+				}
+				if !rejected {
+					for i, o := range objs[1] {
+						tr.put(o)
+						ptrs[objKey(o)] = rts[1][i]
+					}
+				}
+				if err != nil {
+					res = errSx(err)
+				} else {
+					res = At("ok")
+				}
+				if (err != nil) != rejected {
+					rep("C15", "setresources-outcome", fmt.Sprintf("step %d %s: error %v, a policy name already taken: %v", step, op.String()[:min(200, len(op.String()))], err, rejected), step)
+				}
+				lastUpdate = step
+				env.count("op:setres")
 			case "del":
 				o, err := parseObj(op.L[1])
 				if err != nil {
@@ -407,6 +498,14 @@ func genHistCase(r *Rng, id int, tier string) *Sx {
 		candNs = append(candNs, append(append([]KV{}, l...), KV{"kubernetes.io/metadata.name", ns}))
 		return Obj{Kind: "ns", Ns: &NsObj{Name: ns, Labels: l}}
 	}
+	var wlPods []string // pods that workload objects of the history stand for
+	// the namespace a policy is written with: sometimes none (the policy then lives in `default`)
+	npNs := func() string {
+		if r.P(12) {
+			return ""
+		}
+		return Pick(r, nss)
+	}
 	var live []Obj // what the generator believes is present (for deletes and meaningful queries)
 	add := func(o Obj) { c.Add(Ls(At("ins"), o.Sx())); live = append(live, o) }
 	// usually start with namespaces and pods so that queries are meaningful
@@ -465,6 +564,24 @@ func genHistCase(r *Rng, id int, tier string) *Sx {
 	}
 	for i := 0; i < n; i++ {
 		switch k := r.Intn(100); {
+		case k < 4: // SetResources: a batch of policies, pods and namespaces
+			sr := [3]*Sx{Ls(At("nps")), Ls(At("pods")), Ls(At("nss"))}
+			for j, m := 0, r.Intn(3); j < m; j++ {
+				o := Obj{Kind: "np", Np: genNetPol(r, cfg, npNs(), fmt.Sprintf("np%d", r.Intn(4)))}
+				sr[0].Add(o.Sx())
+				live = append(live, o)
+			}
+			for j, m := 0, r.Intn(3); j < m; j++ {
+				o := podObj(Pick(r, pods))
+				sr[1].Add(o.Sx())
+				live = append(live, o)
+			}
+			for j, m := 0, r.Intn(2); j < m; j++ {
+				o := nsObj(Pick(r, nss))
+				sr[2].Add(o.Sx())
+				live = append(live, o)
+			}
+			c.Add(Ls(At("setres"), sr[0], sr[1], sr[2]))
 		case k < 45: // query, often repeating an earlier one
 			var q *Sx
 			if len(queries) > 0 && r.P(55) {
@@ -484,6 +601,9 @@ func genHistCase(r *Rng, id int, tier string) *Sx {
 				end := func() string {
 					if r.P(15) {
 						return Pick(r, []string{"10.1.2.3", "192.168.1.1", "8.8.8.8", "10.0.0.0/8"})
+					}
+					if len(wlPods) > 0 && r.P(25) {
+						return Pick(r, wlPods)
 					}
 					p := Pick(r, pods)
 					return p.ns + "/" + p.name
@@ -506,11 +626,23 @@ func genHistCase(r *Rng, id int, tier string) *Sx {
 			if r.P(25) { // the same pod (same owner and labels) comes back with another port table
 				p.ports = genCPorts(r)
 			}
+			if r.P(15) {
+				// a workload object: it stands for one or two pods named after it; coming back with fewer replicas or other
+				// labels it updates the pods it still stands for
+				reps := Pick(r, []int{1, 2, 3})
+				w := &Workload{Kind: Pick(r, []string{"Deployment", "ReplicaSet", "Job"}), NS: p.ns, Name: Pick(r, []string{"wa", "wb"}), Replicas: &reps, Labels: p.labels, Ports: p.ports}
+				c.Add(Ls(At("ins"), Obj{Kind: "wl", Wl: w}.Sx()))
+				for _, q := range podsOfWorkload(w) {
+					live = append(live, q)
+					wlPods = append(wlPods, q.Pod.NS+"/"+q.Pod.Name)
+				}
+				break
+			}
 			add(podObj(p))
 		case k < 62:
 			add(nsObj(Pick(r, nss)))
 		case k < 74:
-			add(Obj{Kind: "np", Np: genNetPol(r, cfg, Pick(r, nss), fmt.Sprintf("np%d", r.Intn(3)))})
+			add(Obj{Kind: "np", Np: genNetPol(r, cfg, npNs(), fmt.Sprintf("np%d", r.Intn(3)))})
 		case k < 82:
 			if anpN < len(prios) {
 				name := fmt.Sprintf("anp%d", anpN)
@@ -535,8 +667,18 @@ func genHistCase(r *Rng, id int, tier string) *Sx {
 						}
 					}
 				}
+				if r.P(30) { // prefer a policy written without a namespace
+					for t := 0; t < len(live); t++ {
+						if live[t].Kind == "np" && live[t].Np.NS == "" {
+							j = t
+							break
+						}
+					}
+				}
 				d := Ls(At("del"), live[j].Sx())
-				if r.P(20) {
+				// fresh: the delete is given an equal object, not the pointer that was inserted (the insert writes the
+				// defaulted namespace into the object it is given)
+				if r.P(20) || (live[j].Kind == "np" && live[j].Np.NS == "" && r.P(60)) {
 					d.Add(At("fresh"))
 				}
 				c.Add(d)
